@@ -567,7 +567,7 @@ def copyStructReg (env : Env) : M Unit := do
     let f2 ← liftE (hasFlonum env.types (env.types.length + 1) ty 8 16 0)
     if f2 then do
       unless ty.size == 12 || ty.size == 16 do fail "assert(ty->size == 12 || ty->size == 16)"
-      if ty.size == 4 then emit (ins2 "movss" (.m 8 "%rdi") (xmm fp))
+      if ty.size == 12 then emit (ins2 "movss" (.m 8 "%rdi") (xmm fp))   -- /repo 7826748 (was `== 4`)
       else emit (ins2 "movsd" (.m 8 "%rdi") (xmm fp))
     else do
       let reg1 := if gp == 0 then "%al" else "%dl"
@@ -1533,6 +1533,8 @@ def fnBodies (p : Program) : List Obj → St → Except String (List (String × 
         | .ok r => .ok ((cstr fn.v.name, ls) :: r)
 
 def fileLines (p : Program) : List Line :=
+  -- Name the translation unit (/repo: `println("  .file \"%s\"", base_file)` at the head of `codegen`).
+  .raw s!"  .file \"{cstr p.baseFile}\"" ::
   p.files.map fun (no, name) => .raw s!"  .file {no} \"{cstr name}\""
 
 /-- `codegen(prog, out)` -/
